@@ -16,7 +16,7 @@ class CXX2C(Emitter, ExprMixin, LibMixin, StmtMixin):
         self.used_records = collections.OrderedDict()
         self.cur_fn = None; self.cur_cname = None
         self.vars = {}; self.pre = []; self.iter_of = {}; self.iter_ty = {}; self.range_cleanup = []
-        self.this_mode = None; self.ctor_mode = False; self.cur_this_const = False; self.loopn = 0; self.inline_checks = 0; self.var_ty = {}
+        self.this_mode = None; self.ctor_mode = False; self.cur_this_const = False; self.loopn = 0; self.inline_checks = 0; self.var_ty = {}; self.wb = None
         Emitter.__init__(self, unit, objs)
         cxx2c_idioms.install(self)
 
@@ -110,7 +110,7 @@ class CXX2C(Emitter, ExprMixin, LibMixin, StmtMixin):
         return [items[k] for k in order]
 
     def assemble(self):
-        L = ['/* generated by cxx2c from %s — do not edit */' % self.u['name'], '#include "cc_rt.h"', '/*@PRELUDE0@*/']
+        L = ['/* generated by cxx2c from %s — do not edit */' % self.u['name'], '/*@PRELUDE0@*/', '#include "cc_rt.h"']
         types = self.type_items()
         for e in self.enum_defs.values(): L += e
         for oc, q in sorted(self.opaque.items()):
